@@ -328,3 +328,6 @@ Definition c_enc_trace (encoding : option str) :=
 (* codecs.getwriter("css"): one result per write *)
 Definition c_sw_trace (encoding : option str) :=
   enc_trace_nf cest ce_init ce_step (enc_init cest encoding).
+(* codecs.getreader("css")(stream).read() *)
+Definition c_sr_trace (encoding : option str) (force : bool) :=
+  sr_trace cdst cd_init cd_step (sr_init cdst encoding force).
